@@ -61,6 +61,20 @@ def flags_of(obj, suffix=''):
     return {f + suffix: obj.attrs[f] for f in FLAG_NAMES}
 
 
+def whole_domain(t, a, b):
+    """the component panel (own functions, own coordinates, dimensions a x b) is integrated over its whole domain"""
+    out = []
+    pv = t.f['panel']
+    for key, e in (('panel.a', a), ('panel.b', b)):
+        if key in pv and not peq(pv[key], e):
+            out.append('%s = %s, expected %s' % (key, pycheck.describe(pv[key]), pycheck.describe(e)))
+    if t.f['fn'].endswith('y1y2'):
+        y1, y2 = t.f['args'].get('y1'), t.f['args'].get('y2')
+        if not (peq(y1, 0) and peq(y2, b)):
+            out.append('integrated over y in [%s, %s] of its own coordinate, its domain is [0, %s]' % (pycheck.describe(y1), pycheck.describe(y2), pycheck.describe(b)))
+    return out
+
+
 def check_tstiff2d(led):
     func = TF + 'calc_k0'
     led.function(func)
@@ -115,12 +129,14 @@ def check_tstiff2d(led):
                 byfn.setdefault(t.f['fn'], []).append(t)
             probs = []
             # panels
-            fk = byfn.get('fk0y1y2', []) + byfn.get('fk0', [])
+            fk = [t for t in kern if t.f['fn'] in ('fk0', 'fk0y1y2')]
             if len(fk) != 2:
                 probs.append('%d panel stiffness terms, expected base + flange' % len(fk))
             else:
                 probs += ['base: ' + d for d in arg_diffs(fk[0], dict(size=size, row0=row0, col0=row0))]
                 probs += ['flange: ' + d for d in arg_diffs(fk[1], dict(size=size, row0=rowf, col0=rowf))]
+                probs += ['base: ' + d for d in whole_domain(fk[0], bay.attrs['a'], bb)]
+                probs += ['flange: ' + d for d in whole_domain(fk[1], bay.attrs['a'], bf)]
             # skin-base penalty (three blocks)
             y1, y2 = ys - bb * Fraction(1, 2), ys + bb * Fraction(1, 2)
             tsk, tb = real('tskin'), real('tb')
@@ -596,4 +612,60 @@ def check_bladestiff2d(led):
                 if not peq(flange.attrs[f], 1):
                     probs.append('flange flag %s = %s: the attached edge must be free for the penalty to act' % (f, pycheck.describe(flange.attrs[f])))
             report(led, '%s[%s]/panels' % (BF2 + '__init__', tag), BF2 + '__init__', probs)
+        led.solver_time('z3-feasibility', it.solver_time)
+
+
+def check_tstiff2d_kG0_kM(led):
+    """TStiff2D.calc_kG0 / calc_kM: base block at (row0, col0), flange block right after the base, global size, nothing else"""
+    for which in ('kG0', 'kM'):
+        func = TF + 'calc_' + which
+        led.function(func)
+        it, calls = py_panel.mk()
+        mod = it.module('compmech.stiffener.tstiff2d')
+        it.algebraic_minmax = True
+        holder = {}
+
+        def run():
+            del calls[:]
+            bay = make_bay(it)
+            ys = real('ys')
+            p1 = skin(it, bay, 'skin1', P.const(0), ys)
+            p2 = skin(it, bay, 'skin2', ys, bay.attrs['b'])
+            bb, bf = real('bb'), real('bf')
+            it.facts[:] = [to_z3(bay.attrs['a']) > 0, to_z3(bay.attrs['b']) > 0, to_z3(bay.attrs['a']) <= 10 * to_z3(bay.attrs['b']), to_z3(bb) > 0, to_z3(bf) > 0]
+            matb = tuple(real(x + 'b') for x in MAT)
+            matf = tuple(real(x + 'f') for x in MAT)
+            s = it.call(mod.g['TStiff2D'], [], dict(bay=bay, mu=real('mu'), panel1=p1, panel2=p2, ys=ys, bb=bb, bf=bf,
+                                                    bstack=[real('thb')], bplyts=[real('tb')], blaminaprops=[matb],
+                                                    fstack=[real('thf')], fplyts=[real('tf')], flaminaprops=[matf],
+                                                    mb=integer('mb'), nb=integer('nb'), mf=integer('mf'), nf=integer('nf')))
+            del calls[:]
+            size, row0 = integer('size'), integer('row0')
+            it.call(it.getattr(s, 'calc_' + which), [], dict(size=size, row0=row0, col0=row0, silent=True, finalize=False))
+            holder.update(bay=bay, size=size, row0=row0, bb=bb, bf=bf)
+            return s
+        for path, out in it.explore(run):
+            if out[0] != 'return':
+                report(led, func + '/no-exception', func, ['raises %s%s' % (out[1].tname, tuple(str(x)[:80] for x in out[1].eargs))], signature='raise:' + out[1].tname)
+                continue
+            s = out[1]
+            bay, size, row0, bb, bf = (holder[k] for k in ('bay', 'size', 'row0', 'bb', 'bf'))
+            rowf = row0 + 3 * integer('mb') * integer('nb')
+            wrap, kern, scales = kernels_of(s.attrs[which])
+            fn = {'kG0': 'fkG0', 'kM': 'fkM'}[which]
+            probs = []
+            if [t.f['fn'].replace('y1y2', '') for t in kern] != [fn, fn]:
+                probs.append('contributions %s, expected the base and the flange %s' % ([t.f['fn'] for t in kern], fn))
+            else:
+                probs += ['base: ' + d for d in whole_domain(kern[0], bay.attrs['a'], bb)]
+                probs += ['flange: ' + d for d in whole_domain(kern[1], bay.attrs['a'], bf)]
+                for t, lab, r0, dims in ((kern[0], 'base', row0, (bay.attrs['a'], bb, integer('mb'), integer('nb'))), (kern[1], 'flange', rowf, (bay.attrs['a'], bf, integer('mf'), integer('nf')))):
+                    probs += ['%s: %s' % (lab, d) for d in arg_diffs(t, dict(size=size, row0=r0, col0=r0))]
+                    pv = t.f['panel']
+                    for key, e in zip(('panel.a', 'panel.b', 'panel.m', 'panel.n'), dims):
+                        if key in pv and not peq(pv[key], e):
+                            probs.append('%s: %s = %s' % (lab, key, pycheck.describe(pv[key])))
+            if any(k != 1 for k in scales):
+                probs.append('a contribution is scaled')
+            report(led, func, func, probs)
         led.solver_time('z3-feasibility', it.solver_time)
